@@ -922,7 +922,7 @@ fn vp_native_redirect_hops_with_bodies_body() {
     let path = std::env::temp_dir().join(format!("vp_native_hops_{}", std::process::id()));
     std::fs::write(&path, &big).unwrap();
     let mut cases = 0u64;
-    for status in [301u16, 302, 303, 307, 308] { for (ki, kind) in ["empty", "text", "bytes", "file", "json", "json_streaming", "form", "multipart", "custom-chunked", "custom-length"].into_iter().enumerate() {
+    for status in [301u16, 302, 303, 307, 308] { for (ki, kind) in ["empty", "text", "bytes", "file", "json", "json_streaming", "form", "multipart", "custom-chunked", "custom-length", "custom-chunked-64k+1", "custom-chunked-200k", "json_streaming-big"].into_iter().enumerate() {
         log.lock().unwrap().clear();
         let url = format!("http://127.0.0.1:{}/{}/start", a, status);
         // the method varies with the case (every method a caller may use with a body, an extension method among them)
@@ -940,6 +940,10 @@ fn vp_native_redirect_hops_with_bodies_body() {
             "form" => (rb.form(&[("a", "b c")]).unwrap().send(), Some(b"a=b+c".to_vec())),
             "multipart" => (rb.body(crate::MultipartBuilder::new().with_text("k", "v").build().unwrap()).send(), None),
             "custom-chunked" => (rb.body(Writes { pieces: vec![piece(5, 1), piece(0, 0), piece(9000, 2)], chunked: true }).send(), Some([piece(5, 1), piece(9000, 2)].concat())),
+            // streamed bodies larger than any buffer a hop might keep of them
+            "custom-chunked-64k+1" => (rb.body(Writes { pieces: vec![piece(65536, 1), piece(1, 2)], chunked: true }).send(), Some([piece(65536, 1), piece(1, 2)].concat())),
+            "custom-chunked-200k" => (rb.body(Writes { pieces: vec![piece(70000, 3), piece(70000, 4), piece(60001, 5)], chunked: true }).send(), Some([piece(70000, 3), piece(70000, 4), piece(60001, 5)].concat())),
+            "json_streaming-big" => { let v: Vec<u32> = (0..40_000).collect(); let want = serde_json::to_vec(&v).unwrap(); (rb.json_streaming(v).send(), Some(want)) }
             _ => (rb.body(Writes { pieces: vec![piece(5, 1), piece(9000, 2)], chunked: false }).send(), Some([piece(5, 1), piece(9000, 2)].concat())),
         };
         let seen = log.lock().unwrap().clone();
